@@ -1,6 +1,7 @@
 package checks
 
 import (
+	"context"
 	"fmt"
 	"sort"
 	"strings"
@@ -575,6 +576,12 @@ func xProg(id string, kind int) *hs.Prog {
 		st.Ops = []hs.Op{{K: "complete", Tag: "OK " + id}}
 	case 15, 16: // the result is completed, then the statement function fails all the same: an error is an error
 		st.Ops = []hs.Op{row(0), {K: "complete", Tag: "SELECT 1 " + id}, {K: "err", Err: &hs.ErrSpec{Base: "failure after completion " + id, Wraps: []hs.Wrap{{K: 'c', S: "40001"}}}}}
+	case 19, 20: // a row refused half-way (its last value cannot be encoded), then failure
+		if withCols {
+			st.Ops = []hs.Op{row(0), {K: "badrow", Vals: []any{"partly written " + id, make(chan int)}}, {K: "err", Err: &hs.ErrSpec{Base: "failure after a refused row " + id, Wraps: []hs.Wrap{{K: 'c', S: "22P02"}}}}}
+		} else {
+			st.Ops = []hs.Op{{K: "err", Err: &hs.ErrSpec{Base: "failure " + id, Wraps: []hs.Wrap{{K: 'c', S: "22P02"}}}}}
+		}
 	case 17, 18: // Empty(), then failure
 		st.Ops = []hs.Op{{K: "empty"}, {K: "err", Err: &hs.ErrSpec{Base: "failure after Empty " + id, Wraps: []hs.Wrap{{K: 'c', S: "40P01"}}}}}
 	default: // bad row then rows
@@ -583,7 +590,7 @@ func xProg(id string, kind int) *hs.Prog {
 	return &hs.Prog{Stmts: []*hs.Stmt{st}}
 }
 
-const xProgKinds = 19
+const xProgKinds = 21
 
 // runHistory executes a history in lock-step against a fresh connection and
 // judges every step with the model. Returns false when a violation was reported.
@@ -658,6 +665,14 @@ func judgeHistoryY(c *core.Ctx, env *hs.Env, h []xMsg, cs any, yield func()) (ok
 	for _, m := range h {
 		if (m.K == "parse" || m.K == "query") && m.Prog != nil {
 			sess.Progs[m.Query] = m.Prog
+		}
+	}
+	// the statement functions decode their parameters the way a handler expecting dates would (the result
+	// does not matter here; that decoding is nobody else's business does)
+	sess.OnExec = func(ctx context.Context, _ *hs.Stmt, _ wire.DataWriter, params []wire.Parameter) {
+		for _, p := range params {
+			p.Scan(uint32(oid.T_timestamptz))
+			p.Scan(uint32(oid.T_timestamp))
 		}
 	}
 	conn := tr.NewConn(sess)
